@@ -144,7 +144,7 @@ func (d *protoDom) step(st *sState, in ssa.Instruction) bool {
 	case *ssa.Alloc:
 		elemT := x.Type().Underlying().(*types.Pointer).Elem()
 		// a local array of field elements / scalars / big integers: one object per element
-		if at, ok := elemT.Underlying().(*types.Array); ok && at.Len() <= 64 {
+		if at, ok := elemT.Underlying().(*types.Array); ok && at.Len() <= 64 && !isPointerType(at.Elem()) {
 			if k := allocKind(at.Elem()); k == "elem" || k == "scalar" || k == "big" {
 				id := e.newID()
 				arr := &hArray{elems: make([]sVal, at.Len())}
@@ -312,7 +312,7 @@ func (d *protoDom) step(st *sState, in ssa.Instruction) bool {
 		if ap, ok := a.(sPtr); ok && ap.idx == -1 {
 			if arr, ok := st.heap[ap.id].(*hArray); ok {
 				if c, ok := constOf(e.get(st, x.Index)); ok && c.IsInt64() && c.Int64() >= 0 && int(c.Int64()) < len(arr.elems) {
-					if po, isObj := arr.elems[c.Int64()].(pObj); isObj {
+					if po, isObj := arr.elems[c.Int64()].(pObj); isObj && !isPointerType(x.Type().Underlying().(*types.Pointer).Elem()) {
 						st.vals[x] = po
 						return true
 					}
